@@ -63,6 +63,18 @@ def main(seed, ncases, driver, out):
             ok = got is want or got == want
         if not ok: failures.append(dict(desc, kind="differs-from-numpy", got=str(got)[:120], want=str(want)[:120]))
         if len(set(log)) != len(log): failures.append(dict(desc, kind="element-evaluated-twice"))
+        # exactly the selected elements are evaluated: nothing outside the selection (lazy), nothing of it skipped
+        flat = np.arange(dense.size).reshape(dense.shape)
+        selected = set(int(x) for x in np.atleast_1d(flat[item]).reshape(-1))
+        evaluated = set(int(np.ravel_multi_index(tuple(int(x) for x in idx), dense.shape)) for idx in log)
+        if evaluated != selected:
+            extra = sorted(evaluated - selected)[:5]; missing = sorted(selected - evaluated)[:5]
+            failures.append(dict(desc, kind="evaluated-set-differs-from-selection", extra=[list(map(int, np.unravel_index(x, dense.shape))) for x in extra],
+                                 missing=[list(map(int, np.unravel_index(x, dense.shape))) for x in missing]))
+        n0 = len(log)
+        try: s[item]
+        except Exception as e: failures.append(dict(desc, kind="repeated-request-raises", error=str(e)[:100]))
+        if len(log) != n0: failures.append(dict(desc, kind="cached-element-evaluated-again"))
     json.dump({"evaluations": evals, "cases": ncases, "distinct_nontrivial": distinct, "failures": failures, "distribution": dist, "samples": samples}, open(out, "w"))
 
 if __name__ == "__main__":
